@@ -32,7 +32,8 @@ EXPLANATION = (
 ASSUMPTIONS = ["begin_mutation(t)/move_value_from tick the output at t (C04)", "fallback_on_exception behaves per its C14.a table"]
 DECIDED = ["a node capture table", "b same-cycle single error tick (3 writers)", "c try_except", "d map attribution per key",
            "e capture is opt-in", "f message reaches the tick",
-           'm derived capture builder carries every builder field', 'n captured message verbatim']
+           'm derived capture builder carries every builder field', 'n captured message verbatim',
+           "o the owner still pulls a failed child's next wake-up (= C09.d)"]
 NOT_DECIDED = ["non-interference as a whole-run relation", "message content"]
 
 WRITERS = [(NODE, "write_node_error", r"node_error_output\(.*\)\.view\(evaluation_time\)"),
